@@ -99,7 +99,7 @@ Definition svc_send_ref (site : Z) (fn ch : string) : sref :=
 Definition site_refs : list sref :=
   (* 10 g_bcast_idle *)
   [ref 10 fn_bh "" Select
-     [(RecvFrom "b.broadcastReqs", E); (RecvFrom "b.confChan", E); (RecvFrom "sub.Notifications", E);
+     [(RecvFrom "b.broadcastReqs", E); (RecvFrom "b.confChan", E); (RecvFromOk "sub.Notifications", E);
       (Timer "reBroadcastTicker.C", E); (RecvFrom "b.quit", Q CBcast)] 1]
   (* 11 g_bcast_in_broadcast: sendTransaction passes Timeout(broadcastTimeout = 5 s) *)
   ++ qap_refs 11 5000
@@ -147,12 +147,12 @@ Definition site_refs : list sref :=
   (* 40 g_sub_handler *)
       ref 40 (fn_sm ++ "subscriptionHandler") "" Select
         [(RecvFrom "m.newSubscriptions", E); (RecvFrom "m.cancelSubscriptions", E);
-         (RecvFrom "m.ntfnSource.Notifications()", E); (RecvFrom "m.quit", Q CSub)] 1;
+         (RecvFromOk "m.ntfnSource.Notifications()", E); (RecvFrom "m.quit", Q CSub)] 1;
       ref 40 (fn_sm ++ "notifySubscriber") "" Select
         [(SendTo "sub.ntfnQueue.ChanIn()", E); (RecvFrom "sub.quit", E); (RecvFrom "m.quit", Q CSub)] 1;
   (* 41 g_sub_forwarder *)
       ref 41 (fn_sm ++ "NewSubscription") "go" Select
-        [(RecvFrom "sub.ntfnQueue.ChanOut()", E); (RecvFrom "sub.quit", E); (RecvFrom "m.quit", Q CSub)] 1;
+        [(RecvFromOk "sub.ntfnQueue.ChanOut()", E); (RecvFrom "sub.quit", E); (RecvFrom "m.quit", Q CSub)] 1;
       ref 41 (fn_sm ++ "NewSubscription") "go" Select
         [(SendTo "sub.ntfnChan", E); (RecvFrom "sub.quit", E); (RecvFrom "m.quit", Q CSub)] 1;
   (* 50 g_block_handler: main select, and handleHeadersMsg -> rollBackToHeight ->
@@ -188,7 +188,14 @@ Definition site_refs : list sref :=
         [(RecvFrom "b.cfg.firstPeerSignal", E); (RecvFrom "b.quit", Q CBlock)] 1;
   (* 70 g_batch_writer *)
       ref 70 "chanutils/batch_writer.go:BatchWriter.manageNewItems" "" Select
-        [(RecvFrom "b.queue.ChanOut()", E); (Timer "ticker.C", E); (RecvFrom "b.quit", Q CBatch)] 1;
+        [(RecvFromOk "b.queue.ChanOut()", E); (Timer "ticker.C", E); (RecvFrom "b.quit", Q CBatch)] 1;
+  (* 71 g_batch_queue *)
+      ref 71 "chanutils/queue.go:ConcurrentQueue.start" "go" Select
+        [(RecvFromOk "cq.chanIn", E); (RecvFrom "cq.quit", Q CBatch)] 1;
+      ref 71 "chanutils/queue.go:ConcurrentQueue.start" "go" Select
+        [(RecvFromOk "cq.chanIn", E); (SendTo "cq.chanOut", E); (RecvFrom "cq.quit", Q CBatch)] 1;
+      ref 71 "chanutils/queue.go:ConcurrentQueue.start" "go" Select
+        [(SendTo "cq.chanOut", E); (RecvFrom "cq.quit", Q CBatch)] 1;
   (* 80 g_svc_peer_handler *)
       ref 80 "neutrino.go:ChainService.peerHandler" "" Select
         [(RecvFrom "s.newPeers", E); (RecvFrom "s.donePeers", E); (RecvFrom "s.peerHeightsUpdate", E);
@@ -217,9 +224,9 @@ Definition site_refs : list sref :=
      manager's Stop), subscribing / cancelling, or inside GetBlock / GetCFilter *)
       ref 103 "rescan.go:rescanState.rescan" "" Select
         [(RecvFrom "ro.quit", E); (RecvFrom "ro.update", E);
-         (RecvFrom "blockSubscription.Notifications", Q CSub); (RecvFrom "blockRetrySignal", E)] 1;
+         (RecvFromOk "blockSubscription.Notifications", Q CSub); (RecvFrom "blockRetrySignal", E)] 1;
       ref 103 "rescan.go:rescanState.waitForBlocks" "" Select
-        [(RecvFrom "ro.update", E); (RecvFrom "blockSubscription.Notifications", Q CSub);
+        [(RecvFrom "ro.update", E); (RecvFromOk "blockSubscription.Notifications", Q CSub);
          (RecvFrom "ro.quit", E)] 1;
       ref 103 (fn_sm ++ "NewSubscription") "" Select
         [(SendTo "m.newSubscriptions", S CSub); (RecvFrom "m.quit", Q CSub)] 1;
@@ -257,38 +264,44 @@ Definition site_refs : list sref :=
 (* ------------------------------------------------------------------ *)
 (* Which channel expression is which component's quit, per file.  Every
    Quit role above must be listed here.  Entries that are not the quit
-   channel itself say why they follow it.                               *)
+   channel itself say why they follow it.  The flag says that the release is
+   the CLOSING of a channel that otherwise carries data: there the receive
+   must be of the two-valued form (v, ok := <-ch), or the closed channel
+   is taken for a value and the loop around the select spins (C17/Tie.v
+   Tie_quit_roles_named).                                                *)
 
-Definition quit_names : list (string * string * comp) :=
-  [("pushtx/broadcaster.go", "b.quit", CBcast);
-   ("query/workmanager.go", "w.quit", CWork);
+Definition quit_names : list (string * string * comp * bool) :=
+  [("pushtx/broadcaster.go", "b.quit", CBcast, false);
+   ("query/workmanager.go", "w.quit", CWork, false);
    (* worker.Run's parameter: the dispatcher passes w.quit *)
-   ("query/worker.go", "quit", CWork);
+   ("query/worker.go", "quit", CWork, false);
    (* verdict channel of a batch: workDispatcher's deferred loop sends
       ErrWorkManagerShuttingDown to every open batch when it leaves through
       w.quit, Query sends it itself when w.quit is already closed *)
-   ("query.go", "errChan", CWork);
-   ("blockmanager.go", "errChan", CWork);
-   ("utxoscanner.go", "s.quit", CScan);
+   ("query.go", "errChan", CWork, false);
+   ("blockmanager.go", "errChan", CWork, false);
+   ("utxoscanner.go", "s.quit", CScan, false);
    (* GetUtxoRequest.quit: Enqueue sets it to the scanner's quit *)
-   ("utxoscanner.go", "r.quit", CScan);
-   ("blockntfns/manager.go", "m.quit", CSub);
+   ("utxoscanner.go", "r.quit", CScan, false);
+   ("blockntfns/manager.go", "m.quit", CSub, false);
    (* a subscription's channel is closed by newSubscription.cancel, which
       SubscriptionManager.Stop runs for every subscriber *)
-   ("rescan.go", "blockSubscription.Notifications", CSub);
-   ("blockmanager.go", "b.quit", CBlock);
-   ("chanutils/batch_writer.go", "b.quit", CBatch);
-   ("neutrino.go", "s.quit", CSvc);
-   ("notifications.go", "s.quit", CSvc);
-   ("query.go", "s.quit", CSvc);
+   ("rescan.go", "blockSubscription.Notifications", CSub, true);
+   ("blockmanager.go", "b.quit", CBlock, false);
+   ("chanutils/batch_writer.go", "b.quit", CBatch, false);
+   (* the writer's queue, stopped by BatchWriter.Stop *)
+   ("chanutils/queue.go", "cq.quit", CBatch, false);
+   ("neutrino.go", "s.quit", CSvc, false);
+   ("notifications.go", "s.quit", CSvc, false);
+   ("query.go", "s.quit", CSvc, false);
    (* delayedCloser.closeEventually(s.quit) *)
-   ("query.go", "quit", CSvc);
+   ("query.go", "quit", CSvc, false);
    (* queryAllPeers: closed / returns once every per-peer goroutine has left,
       each through s.quit or its timer *)
-   ("query.go", "allQuit", CSvc);
-   ("query.go", "wg", CSvc);
+   ("query.go", "allQuit", CSvc, false);
+   ("query.go", "wg", CSvc, false);
    (* the reply to a peer-state query is unconditional once the request was taken *)
-   ("notifications.go", "replyChan", CSvc)].
+   ("notifications.go", "replyChan", CSvc, false)].
 
 (* ------------------------------------------------------------------ *)
 (* The Stop functions, site by site in source order (listed with +calls:
@@ -337,7 +350,9 @@ Definition stop_sequences : list (string * list (string * kind * list alt)) :=
      ("", CloseChan, W "b.quit"); ("", WaitGroupWait, W "b.wg"); ("", CloseChan, W "done")]);
    (* the queue is stopped only after the writer goroutine has left *)
    ("chanutils/batch_writer.go:BatchWriter.Stop",
-    [("func", CloseChan, W "b.quit"); ("func", WaitGroupWait, W "b.wg"); ("func", StopCall, W "b.queue")])].
+    [("func", CloseChan, W "b.quit"); ("func", WaitGroupWait, W "b.wg"); ("func", StopCall, W "b.queue")]);
+   ("chanutils/queue.go:ConcurrentQueue.Stop",
+    [("func", CloseChan, W "cq.quit"); ("func", WaitGroupWait, W "cq.wg")])].
 
 (* ------------------------------------------------------------------ *)
 (* Sites other claims lean on (they are on the allow-list as non-blocking,
@@ -354,31 +369,57 @@ Definition supports : list (string * key * nat) :=
    each with its reason.  (Selects with a default case never block and are
    not listed; C17/Tie.v accepts them structurally.)                    *)
 
-Record allow := mkAllow { a_key : key; a_count : nat; a_why : string }.
+(* A capacity claim: function [fn] creates exactly [n] channel(s) under the
+   name [name], each with the capacity expression [cap] (text). *)
+Record capclaim := mkCap { c_fn : string; c_name : string; c_cap : string; c_n : nat }.
+
+Record allow := mkAllow { a_key : key; a_count : nat; a_why : string; a_caps : list capclaim }.
+
+Definition cap_query_errchan := mkCap fn_Query "errChan" "1" 1.
 
 Definition nonblocking_or_irrelevant : list allow :=
   [mkAllow (mkKey "notifications.go:ChainService.handleQuery" "" BareSend [SendTo "msg.reply"]) 15
-     "reply to a requester that is committed to receive: every sender of such a message does <-replyChan right after its send on s.query was taken (ConnectedPeers: reply channel of capacity 1)";
+     "reply to a requester that is committed to receive: every sender of such a message does <-replyChan right after its send on s.query was taken (the BareRecv sites referenced by c_peers); the one requester that may leave through s.quit instead, ConnectedPeers, makes its reply channel with capacity 1"
+     [mkCap "notifications.go:ChainService.ConnectedPeers" "replyChan" "1" 1];
    mkAllow (mkKey "notifications.go:ChainService.handleQuery" "func" BareSend [SendTo "peerChan"]) 1
-     "channel made just above with capacity state.Count(); at most that many peers are put into it";
+     "channel made just above with capacity state.Count(); at most that many peers are put into it"
+     [mkCap "notifications.go:ChainService.handleQuery" "peerChan" "state.Count()" 1];
    mkAllow (mkKey "neutrino.go:ChainService.peerDoneHandler" "" OtherWait [WaitOn "sp.WaitForDisconnect"]) 1
-     "no Stop waits for this goroutine; it ends when btcd's peer has disconnected (the peer handler disconnects every peer on s.quit); btcd peer internals are not modelled";
+     "no Stop waits for this goroutine; it ends when btcd's peer has disconnected (the peer handler disconnects every peer on s.quit); btcd peer internals are not modelled"
+     [];
+   (* THE ONLY THING BETWEEN THE TABLE AND A HANG: this select is run by a
+      query worker (owner CWork, inside HandleResp) and its only other
+      alternative is the block manager's quit, which ChainService.Stop closes
+      AFTER it has waited for the workers.  As a wait site it would be
+      [mkSite _ (Some CWork) [RQuit CBlock] []], which wf_from rejects and on
+      which run_stop hangs at the work manager's stage (C17/Properties.v
+      C17_channel_capacity_matters).  It is not a wait site only because
+      the send cannot block: one slot per request. *)
    mkAllow (mkKey "blockmanager.go:checkpointedCFHeadersQuery.handleResponse" "" Select
               [SendTo "c.headerChan"; RecvFrom "c.blockMgr.quit"]) 1
-     "headerChan has capacity len(queryMsgs) and a request is finished by its first accepted response, so the send does not block";
+     "headerChan is made in getCheckpointedCFHeaders with capacity len(queryMsgs), one slot per request, and a request is finished by its first accepted response, so the send never blocks; with any smaller capacity this is a wait of a work-manager goroutine on the block manager's quit, which is closed later: Stop hangs"
+     [mkCap "blockmanager.go:blockManager.getCheckpointedCFHeaders" "headerChan" "len(queryMsgs)" 1];
    mkAllow (mkKey fn_Query "" BareSend [SendTo "errChan"]) 1
-     "errChan is made in this function with capacity 1";
+     "errChan is made in this function with capacity 1"
+     [cap_query_errchan];
    mkAllow (mkKey fn_wd "defer" BareSend [SendTo "b.errChan"]) 1
-     "batch verdict: errChan has capacity 1 (made in Query) and a batch gets exactly one verdict, it leaves currentBatches with the send (property C12)";
+     "batch verdict: errChan has capacity 1 (made in Query) and a batch gets exactly one verdict, it leaves currentBatches with the send (property C12)"
+     [cap_query_errchan];
    mkAllow (mkKey fn_wd "" BareSend [SendTo "bp.errChan"]) 1
-     "batch verdict, as above";
+     "batch verdict, as above" [cap_query_errchan];
    mkAllow (mkKey fn_wd "" BareSend [SendTo "batch.errChan"]) 4
-     "batch verdict, as above";
+     "batch verdict, as above" [cap_query_errchan];
    mkAllow (mkKey fn_bh "" BareSend [SendTo "rebroadcastSem"]) 1
-     "semaphore of capacity 1 made on the previous line";
+     "semaphore of capacity 1 made on the previous line"
+     [mkCap fn_bh "rebroadcastSem" "1" 1];
    mkAllow (mkKey fn_bh "func/go" BareSend [SendTo "rebroadcastSem"]) 1
-     "gives back the token taken (select with default) before this goroutine was started; capacity 1";
+     "gives back the token taken (select with default) before this goroutine was started; capacity 1"
+     [mkCap fn_bh "rebroadcastSem" "1" 1];
+   (* the requester (Broadcast) may have left through b.quit: without the
+      slot the handler would wait here with no alternative at all *)
    mkAllow (mkKey fn_bh "" BareSend [SendTo "req.errChan"]) 2
-     "errChan of capacity 1 made in Broadcast; one reply per request";
+     "errChan of capacity 1 made in Broadcast; one reply per request, so the send never blocks even when the requester has left through b.quit"
+     [mkCap "pushtx/broadcaster.go:Broadcaster.Broadcast" "errChan" "1" 1];
    mkAllow (mkKey (fn_sm ++ "subscriptionHandler") "" BareSend [SendTo "msg.errChan"]) 1
-     "errChan of capacity 1 made in NewSubscription; one reply per subscription"].
+     "errChan of capacity 1 made in NewSubscription; one reply per subscription, the requester may have left through m.quit"
+     [mkCap (fn_sm ++ "NewSubscription") "errChan" "1" 1]].
